@@ -40,6 +40,12 @@ def gen_dict(rng):
             base = rng.choice(entries)
             k = rng.randint(1, 2)
             path = list(base[0]) + [frozenset(rng.sample(LETTERS, k))]
+        elif r < 0.65:
+            # a follow-up chain whose first chord has no output of its own (`r df<TAB>recipient`): the first keys are typed as
+            # they are and erased when the chain completes
+            path = [frozenset(rng.sample(LETTERS, rng.randint(1, 2))), frozenset(rng.sample(LETTERS, rng.randint(1, 2)))]
+            if any(e[0][0] == path[0] or (len(e[0][0]) > 1 and path[0] < e[0][0]) for e in entries):
+                continue
         else:
             path = [frozenset(rng.sample(LETTERS, rng.randint(2, 4)))]
         if tuple(path) in used:
@@ -55,6 +61,21 @@ def gen_dict(rng):
         if rng.random() < 0.1:
             w = w + ' ' + rng.choice(OUT_ALPHA)
         entries.append((path, w))
+    # a chain head without output of its own that overlaps (subset / superset) any other chord of the dictionary is ambiguous for the
+    # typist and handled inconsistently (see the known findings followup-overlap / headless-overlap): most dictionaries keep such
+    # heads apart from everything else, one in eight keeps the overlaps (then tagged by the scenario)
+    if rng.random() < 0.875:
+        with_output = {tuple(p) for p, _ in entries}
+        heads = {p[0] for p, _ in entries if len(p) > 1 and (p[0],) not in with_output}
+        def clash(p):
+            for h in heads:
+                for i, q in enumerate(p):
+                    if (i, q) != (0, h) and (q <= h or h <= q):
+                        return True
+            return False
+        kept = [(p, w) for p, w in entries if not clash(p)]
+        if kept:
+            entries = kept
     return entries
 
 
@@ -111,7 +132,16 @@ def make_case(rng, i, tier):
         # at a followup level, a chord that strictly contains a sibling chord (known finding followup-overlap)
         overlap = any(len(p2) > i and p2[:i] == path[:i] and p2[i] < path[i]
                       for i in range(1, len(path)) for p2, _ in entries)
-        scen.append(('chord', w, shift, ss, [sorted(ks) for ks in path], 'followup-overlap' if overlap else ''))
+        # the same eager activation with a standalone chord: a followup chord that contains the first chord of some chain
+        # (`d dg`: pressing d of the followup {d g} activates the standalone d again)
+        overlap = overlap or any(p2[0] <= path[i] for i in range(1, len(path)) for p2, _ in entries) \
+            or any(path[j] <= path[i] for i in range(1, len(path)) for j in range(i))
+        # a standalone chord that strictly contains the output-less head of some chain, with smart space on: the keys typed for the
+        # head are erased together with the space that was added automatically after the previous expansion
+        with_output = {tuple(p2) for p2, _ in entries}
+        heads = {p2[0] for p2, _ in entries if len(p2) > 1 and (p2[0],) not in with_output}
+        headless = any((i, q) != (0, h) and (q <= h or h <= q) for h in heads for i, q in enumerate(path))
+        scen.append(('chord', w, shift, ss, [sorted(ks) for ks in path], 'followup-overlap' if overlap else ('headless-overlap' if headless else '')))
         in_followup_context = any(len(p2) > len(path) and p2[:len(path)] == path for p2, _ in entries)
         h.append('M')
         if kind == 'chord-then-type':
